@@ -2,6 +2,8 @@
 framing is checked by the Python oracle through the real parse_string)."""
 import json
 
+from props import c11_names
+
 ENGINE = "interpolate"
 RULE = ("documents generated as text from a spec: 0-4 @string definitions (before / after / duplicated / absent; values "
         "quoted, braced, bare number, another key, concatenation, nothing at all / blanks after the `=`, i.e. the empty content) "
@@ -17,6 +19,19 @@ RULE = ("documents generated as text from a spec: 0-4 @string definitions (befor
         "@preamble alike), and independent whitespace (nothing, blanks, tabs, LF, CRLF, CR, form feed, vertical tab, U+0085, "
         "U+00A0, U+2028, blank lines) before and after every key, `=`, value, `,` and before the closing `}`, with or without a "
         "trailing comma, entries without fields included; the oracle expectation depends on the spec only, never on the layout. "
+        "Alphabet of names (c11_names.py): the @string names and the values referring to them are drawn from every class of "
+        "kchar of the dialect (any non-whitespace character that is no active delimiter; without `#`, finding K8, and `@`): ASCII "
+        "punctuation - : . + / * ! ? & ' ( ) [ ] ; < > | ^ ~ ` $ % _, a backslash, delimiters made inactive by a backslash, digits in "
+        "first position and names of digits only, letters and digits outside ASCII (special casing, compatibility forms, "
+        "non-decimal digits and numerics, supplementary plane), combining marks and invisible format characters, symbols, "
+        "look-alikes of the delimiters, non-whitespace control characters; stream `alphabet`: the documents above over a pool "
+        "made of such a name and 1-3 siblings differing from it only in such characters (character dropped / replaced, NFC / "
+        "NFD / NFKC / NFKD, letter case, one more combining mark, other digits), some defined, some not, all three operations "
+        "and the two-call stream; stream `alphabet-sweep`, bounded: EVERY unit of every class x position in the name (first / "
+        "inner / last / the whole name), the name referenced bare, enclosed and concatenated next to a bare sibling, with the name, "
+        "the sibling, both, none or the name twice defined before / after / around the entry (default stack; thorough: resolve "
+        "alone too). A bare value naming an @string is expected to resolve whatever its characters (pure digits included, as "
+        "in C11_doc_fields'). "
         "distinct = distinct (text, operation); "
         "non-trivial = some field value is a bare identifier or an enclosed look-alike of a defined key")
 TRUSTED = ["the splitter is not modelled in this engine: the model starts from the split library, the Python oracle checks "
@@ -63,7 +78,8 @@ def add_layout(doc, rng):
     return doc
 
 
-def gen_doc(rng):
+def gen_doc(rng, skeys=None):
+    SKEYS = skeys or globals()["SKEYS"]
     nstr = rng.choice([0, 1, 1, 2, 2, 3, 4])
     defined = [rng.choice(SKEYS) for _ in range(nstr)]           # may repeat: duplicated definitions
     strings = [{"t": "string", "key": k, "src": rng.choice(STRING_SRCS)} for k in defined]
@@ -147,6 +163,53 @@ def grid_docs(rng):
                 yield {"items": items, "style": rng.randint(0, 3)}
 
 
+def alphabet_doc(rng):
+    """a document of gen_doc over a pool of names of one class of the alphabet and their siblings"""
+    pool = c11_names.gen_pool(rng)
+    doc = gen_doc(rng, pool)
+    doc["alpha"] = {"pool": pool}
+    return doc
+
+
+def sweep_docs(rng):
+    """bounded sweep: every unit of every class of the alphabet x its position in the name; the name is ALWAYS defined
+    (alone, next to a sibling with another content, or twice) and referenced bare, enclosed and concatenated, the sibling
+    bare; then every unit that has another Unicode normalisation form, once per form: the equivalent name is the sibling
+    and either both are defined (with different contents) or the sibling alone (the name must then keep its own text)"""
+    todo = [(lab, unit, pos, None) for lab, unit, pos in c11_names.sweep_units()]
+    todo += list(c11_names.equivalence_units(rng))
+    for lab, unit, pos, equiv in todo:
+        name = c11_names.place(unit, pos)
+        if equiv is None:
+            sibs = c11_names.siblings(name, rng)
+            sib = rng.choice(sibs) if sibs else name + "x"
+            how = rng.choice(["name", "name", "name", "both", "both", "both", "twice"])
+        else:
+            sib = equiv
+            how = rng.choice(["both", "sib"])
+            pos = "equivalent"
+        c1, c2 = rng.sample(STRING_SRCS[:4] + STRING_SRCS[5:6], 2)          # two different contents
+        strings = {"name": [(name, c1)], "both": [(name, c1), (sib, c2)], "sib": [(sib, c2)], "none": [],
+                   "twice": [(name, c1), (name, c2)]}[how]
+        if how == "both" and rng.random() < 0.5:
+            strings.reverse()
+        strings = [{"t": "string", "key": k, "src": v} for k, v in strings]
+        others = ["{%s}" % name, '"%s"' % name, "%s # %s" % (name, name), '%s # "lit"' % name, "{%s} # %s" % (sib, name),
+                  name.swapcase(), name + "x", "x" + name, "{{%s}}" % name, "12", '"%s" # "%s"' % (name, sib)]
+        srcs = [name, sib] + rng.sample(others, 4)
+        if rng.random() < 0.5:
+            srcs[0], srcs[1] = srcs[1], srcs[0]
+        ent = {"t": "entry", "type": rng.choice(["article", "Book"]), "key": "e0", "fields": [[n, v] for n, v in zip(FNAMES, srcs)]}
+        cut = rng.randint(0, len(strings))
+        items = strings[:cut] + [ent] + strings[cut:]
+        if rng.random() < 0.2:
+            items.append({"t": "entry", "type": "misc", "key": "e1", "fields": [["note", name]]})     # a second reference, after everything
+        doc = {"items": items, "style": rng.randint(0, 3), "alpha": {"pool": [name, sib], "sweep": [lab, pos, how]}}
+        if rng.random() < 0.5:
+            add_layout(doc, rng)
+        yield doc
+
+
 def two_calls(doc):
     """the documents of the two-call stream: (early @string definitions, everything else)"""
     early = [it for it in doc["items"] if it["t"] == "string" and it.get("early")]
@@ -194,6 +257,18 @@ def generate(rng, tier):
         cases.append({"stream": "layout", "input": {"doc": doc, "op": 111}})
         if tier != "quick":
             cases.append({"stream": "layout", "input": {"doc": doc, "op": 110}})
+    # the alphabet of names
+    for _ in range(150 if tier == "quick" else 4000):
+        doc = alphabet_doc(rng)
+        for op in (110, 111, 112):
+            cases.append({"stream": "alphabet", "input": {"doc": doc, "op": op}})
+        if any(it["t"] == "string" and it.get("early") for it in doc["items"]):
+            cases.append({"stream": "alphabet", "input": {"doc": doc, "op": 113}})
+    for rep in range(1 if tier == "quick" else 4):
+        for doc in sweep_docs(rng):
+            cases.append({"stream": "alphabet-sweep", "input": {"doc": doc, "op": 111}})
+            if tier != "quick":
+                cases.append({"stream": "alphabet-sweep", "input": {"doc": doc, "op": 110}})
     return cases
 
 
@@ -246,7 +321,52 @@ def content(src):
 
 
 def is_bare_ident(src):
-    return src != "" and not any(c in src for c in '{}"#, \t\n=') and not src.isdigit()
+    """one bare piece of the dialect: kchar+ without `#` (no whitespace, no active delimiter; a delimiter directly after a
+    backslash is not active).  Numbers are bare pieces too: whether one is a reference is decided by the @string names."""
+    if src == "":
+        return False
+    prev_bs = False
+    for c in src:
+        if c.isspace() or c == "#" or (c in '{}",=' and not prev_bs):
+            return False
+        prev_bs = c == "\\"
+    return True
+
+
+def alpha_tags(doc, prefix=""):
+    """the distribution of the alphabet streams: classes of the names of the pool, how the names are referred to"""
+    al = doc.get("alpha")
+    if not al:
+        return []
+    pool = al["pool"]
+    tags = set()
+    for lab in c11_names.label_of(pool[0]):
+        tags.add("names:" + lab)
+    if "sweep" in al:
+        tags.add("sweep:" + al["sweep"][0])
+        tags.add("sweep-position:" + al["sweep"][1])
+        tags.add("sweep-defined:" + al["sweep"][2])
+    items = doc["items"]
+    defined = [it["key"] for it in items if it["t"] == "string"]
+    if len(set(defined)) != len(defined):
+        tags.add("ref:duplicated-definition")
+    seen = set()
+    for it in items:
+        if it["t"] == "string":
+            seen.add(it["key"])
+        if it["t"] != "entry":
+            continue
+        for _, src in it["fields"]:
+            if src in pool and is_bare_ident(src):
+                if src not in defined:
+                    tags.add("ref:bare-never-defined")
+                else:
+                    tags.add("ref:bare-defined-before" if src in seen else "ref:bare-defined-after")
+            elif src[:1] in '{"' and src[1:-1] in pool:
+                tags.add("ref:enclosed")
+            elif "#" in src and any(k in src for k in pool):
+                tags.add("ref:concatenated")
+    return sorted(prefix + t for t in tags)
 
 
 def oracle_default(doc, lib, early=None):
@@ -320,6 +440,8 @@ def impl_two_calls(doc):
     rec["oracle"] = {"ok": ok, "detail": detail + ("" if ok else " after parse_string(%r) then parse_string(%r, library=<the first result>)" % (t1, t2))}
     rec["tags"].append("two-call-resolved-some" if any("ResolveStringReferences" in e.parser_metadata for e in lib.entries)
                        else "two-call-resolved-none")
+    if doc.get("alpha"):
+        rec["tags"].append("two-call-alphabet")
     rec["summary"] = repr([[(f.key, f.value) for f in e.fields] for e in lib.entries])[:200]
     return rec
 
@@ -373,6 +495,7 @@ def impl(case):
                 ok, detail = False, "the @string blocks after default parsing are %r, as split they were %r" % (got, want)
         rec["oracle"] = {"ok": ok, "detail": detail + ("" if ok else " in document %r" % text)}
         tags.append("resolved-some" if any("ResolveStringReferences" in e.parser_metadata for e in lib.entries) else "resolved-none")
+        tags += alpha_tags(doc)
     elif op == 110:
         # resolution alone leaves every non-entry block and every string as split
         ok = [(s.key, s.value) for s in lib.strings] == [(s.key, s.value) for s in split0.strings] and \
